@@ -159,13 +159,32 @@ func (l *lst) Stop()                                      {}
 func breakerWork(deadline time.Time) {
 	for time.Now().Before(deadline) {
 		tk := &tick{}
-		br, err := cb.NewCircuitBreakerBuilder().SetTicker(tk).SetFailureRateThreshold(0.3).SetMinimumRequestThreshold(2).
+		bld := cb.NewCircuitBreakerBuilder().SetTicker(tk).SetFailureRateThreshold(0.3).SetMinimumRequestThreshold(2).
 			SetTrialRequestInterval(7).SetCircuitOpenWindow(20).SetCounterSlidingWindow(40).SetCounterUpdateInterval(5).
-			AddListener(&lst{}).AddListener(&lst{}).Build()
+			AddListener(&lst{}).AddListener(&lst{})
+		br, err := bld.Build()
 		if err != nil {
 			panic(err)
 		}
 		var wg sync.WaitGroup
+		// the builder stays with this goroutine and goes on building (and being reconfigured) while the breaker it
+		// built is in use elsewhere: what Build handed out must not be touched again
+		wg.Add(1)
+		go func() {
+			defer wg.Done()
+			for i := 0; i < 40; i++ {
+				b2, err := bld.Build()
+				if err != nil {
+					panic(err)
+				}
+				b2.CanRequest()
+				b2.OnFailure()
+				if i%8 == 7 {
+					bld.AddListener(&lst{})
+				}
+				runtime.Gosched()
+			}
+		}()
 		for g := 0; g < 8; g++ {
 			wg.Add(1)
 			go func(g int) {
@@ -248,11 +267,23 @@ func poolWork(deadline time.Time) {
 
 func retryWork(deadline time.Time) {
 	for time.Now().Before(deadline) {
-		b, err := retry.NewBackoffBuilder().BaseBackoffSpec("exponential=10:1000:1.5").WithLimit(20).WithJitter(0.2).Build()
+		rb := retry.NewBackoffBuilder().BaseBackoffSpec("exponential=10:1000:1.5").WithLimit(20).WithJitter(0.2)
+		b, err := rb.Build()
 		if err != nil {
 			panic(err)
 		}
 		var wg sync.WaitGroup
+		// the builder goes on (more layers, more Builds) on its own goroutine while the policy it built is shared
+		wg.Add(1)
+		go func() {
+			defer wg.Done()
+			for i := 0; i < 20; i++ {
+				if b2, err := rb.WithJitter(0.1).Build(); err == nil {
+					b2.NextDelayMillis(1 + i%5)
+				}
+				runtime.Gosched()
+			}
+		}()
 		for g := 0; g < 6; g++ {
 			wg.Add(1)
 			go func() {
